@@ -13,6 +13,9 @@ pub struct FaultScenario {
     pub img: ImageSet,
     pub cfg: DevCfg,
     pub cfg_name: String,
+    /// also judge every crash state of the windows that follow the first failed request (C04 over
+    /// histories in which a request failed)
+    pub crash_oracle: bool,
 }
 
 #[derive(Default, Clone, Debug)]
@@ -215,6 +218,47 @@ impl FaultScenario {
                 plan,
             ));
             return out;
+        }
+        // C04 after a fault: a crash anywhere behind the failed request (in the rest of the history and
+        // in the healed flush) has to leave a safe image as well
+        if self.crash_oracle {
+            let s = w.sim.borrow();
+            if let Some(ff) = s.reqs.iter().position(|r| r.failed) {
+                let mut bad: Option<String> = None;
+                for win in crate::crash::windows(&s, 0) {
+                    if bad.is_some() || !win.unsynced.iter().any(|id| *id > ff) {
+                        continue;
+                    }
+                    win.enumerate(1 << 10, 2, |img, _| {
+                        use std::hash::{Hash, Hasher};
+                        let mut hh = std::collections::hash_map::DefaultHasher::new();
+                        img.hash(&mut hh);
+                        0xC04Fu16.hash(&mut hh);
+                        if !crate::lin::CRASH_SEEN.lock().unwrap().insert(hh.finish()) {
+                            return true;
+                        }
+                        crate::lin::CRASH_IMAGES.fetch_add(1, std::sync::atomic::Ordering::Relaxed);
+                        if let Some((c, d)) = check_image(img).first_problem(false) {
+                            bad = Some(format!("{}\u{1}{}", c, d));
+                            return false;
+                        }
+                        true
+                    });
+                }
+                drop(s);
+                if let Some(b) = bad {
+                    let (c, d) = b.split_once('\u{1}').unwrap();
+                    let kinds: std::collections::BTreeSet<&str> = hist.iter().map(|o| op_kind(o)).collect();
+                    let mut v = self.viol(
+                        format!("crash-after-fault:{}:{}", c, kinds.into_iter().collect::<Vec<_>>().join("+")),
+                        format!("a crash behind the failed request (the backend healed, flush_meta was retried) can leave an unsafe image: {}", d),
+                        hist,
+                        plan,
+                    );
+                    v.prop = "C04".into();
+                    out.push(v);
+                }
+            }
         }
         // C02 after a faulted history: flush_meta returned Ok and nothing was issued since, so a
         // new device on the same bytes has to read what the old one reads
